@@ -401,6 +401,7 @@ Section Joint.
     | OSetPopulation _ => False
     | OSetStepMonitor _ => False
     | OSetConstraints _ => keep_cons = false
+    | OSetRangesCons _ _ => keep_cons = false
     | OStep _ i => ok_in i
     | OSolve _ is d => Forall ok_in is /\ ok_in d
     | _ => True
@@ -419,6 +420,8 @@ Section Joint.
       + eapply Hcalls; [| | |exact H]; try reflexivity. intros K. congruence.
     - (* Step *) apply step_joint; [exact Hc|]. eapply P_frame; [| | |exact H]; reflexivity.
     - (* Solve *) destruct Hc as [Hc1 Hc2]. apply solve_joint; auto. eapply P_frame; [| | |exact H]; reflexivity.
+    - (* SetStrictRanges, tight / clip: the constraints function changes too *)
+      eapply Hcalls; [| | |apply finalize_joint; exact H]; try reflexivity. intros K. congruence.
   Qed.
   Local Transparent solve step.
 
